@@ -237,6 +237,10 @@ impl KeyHost {
     }
 }
 
+/// what the C10 rig's proxied client sends under the proxy-owned authorization name: a well-formed value naming key 0 with a MAC
+/// no key produced. On a signed request the proxy's own line replaces it; next to the proxy's line it is a mis-paired line.
+pub const CLIENT_AUTHZ_MARKER: &str = "Azure-HMAC-SHA256 00000000-aaaa-bbbb-cccc-000000000000 0000000000000000000000000000000000000000000000000000000000000000";
+
 impl HostState {
     pub fn new_key(&mut self) -> (String, String) {
         self.key_counter += 1;
@@ -263,6 +267,11 @@ impl HostState {
 
     fn check_signature(&mut self, r: &Recorded) -> Option<bool> {
         if r.head.get("x-ms-azure-host-authorization").is_none() {
+            return None;
+        }
+        // a client's own value under the proxy-owned name that came through on a request the proxy did not sign (no key latched)
+        let lines = r.head.get_all("x-ms-azure-host-authorization");
+        if lines.len() == 1 && lines[0] == CLIENT_AUTHZ_MARKER.as_bytes() {
             return None;
         }
         let issued = self.issued.clone();
